@@ -23,7 +23,7 @@ NOT_DECIDED = {
 }
 
 # which engines a property uses
-USES_KANI = {'C01', 'C03', 'C10'}
+USES_KANI = {'C01', 'C03', 'C06', 'C10'}
 
 _TB = ('Trusted: contracts/preamble.rs (std items without vstd specs, derived Clone/PartialEq, String/Vec extensionality, Peekable laws), the abstract numeric '
        'instance (its integer contracts are proved for i64 by Kani; float operations uninterpreted), user functions pure and non-panicking, 64-bit usize. '
@@ -44,8 +44,8 @@ META = {
     'C05': dict(engine='verus', design_ref='0, 4', technique='contract-based deductive verification (Verus): evaluation arms + level-grammar stack invariant + token conservation',
                 text='Tuple/Chain/RootNode arms proved against op_spec; the evaluators evaluate every element in order; the stack of open nodes is proved to follow the level grammar Root (Chain)? (Tuple)? with the last child of an open sequence being the root of the element being parsed, an open sequence holding at least two elements, and (token conservation, through the builder loop and both collapse functions) every separator standing for exactly one more element of its sequence: w_node(tree) == number of non-parenthesis tokens.',
                 note=_TB + ' The closed-form shape theorem (flat tuple of all elements for every input) is not mechanised.'),
-    'C06': dict(engine='verus', design_ref='0, 4', technique='contract-based deductive verification (Verus, unbounded): lexer stages against lex2 / split / str_lit',
-                text='partial_tokens_to_tokens proved equal to the documented lexical rule lex2 for all inputs (int, float, bool, scientific join, identifier; longest match); parse_string_literal/parse_escape_sequence proved against str_lit; parse_dec_or_hex proved to choose hex after 0x; tokenize = lex2 after split.',
+    'C06': dict(engine='verus+kani', design_ref='0, 4', technique='contract-based deductive verification (Verus, unbounded): lexer stages against lex2 / split / str_lit; Kani bounded stand-in (strings of <= 2 ASCII bytes) for the radix-16 parser of the default integer type',
+                text='partial_tokens_to_tokens proved equal to the documented lexical rule lex2 for all inputs (int, float, bool, scientific join, identifier; longest match); parse_string_literal/parse_escape_sequence proved against str_lit; parse_dec_or_hex proved to choose hex after 0x; tokenize = lex2 after split. Bounded (labelled, not counted as proved): i64::from_hex_str parses radix 16 for every ASCII string of length 1 or 2.',
                 note=_TB + ' std number parsers, Display of partial tokens (scientific join text) and char::is_whitespace are uninterpreted.'),
     'C07': dict(engine='verus', design_ref='0, 4', technique='contract-based deductive verification (Verus, unbounded): split / comment_skip',
                 text='str_to_partial_tokens proved equal to split: every whitespace character and every comment contributes one separator, string literals are taken before comment recognition; try_skip_comment proved against comment_skip (line_rest / block_rest).',
